@@ -27,9 +27,12 @@ type Job struct {
 	RaceRuns  int    `json:"race_runs,omitempty"`
 	NoPolling bool   `json:"no_polling,omitempty"`
 	Deviation bool   `json:"deviation_bounding,omitempty"`
+	Shard     int    `json:"shard,omitempty"`
+	NShards   int    `json:"nshards,omitempty"`
 	Choices   []int  `json:"choices,omitempty"` // replay
 
 	Distinct1 bool `json:"-"` // C46: every schedule of this configuration must give the same outcome
+	Shards    int  `json:"-"` // driver only: explore this system with that many processes (see vsched.Explorer.Shard)
 }
 
 type Params struct {
@@ -92,7 +95,7 @@ func Main(bodies map[string]BodyFunc) {
 	}
 	switch os.Args[1] {
 	case "explore":
-		x := &vsched.Explorer{Name: j.Name, Body: b, Reset: reset, Bounds: j.Bounds, Prune: j.Prune, EnvBudget: j.EnvBudget, Horizon: j.Horizon, NoPolling: j.NoPolling, EveryDeviationCosts: j.Deviation}
+		x := &vsched.Explorer{Name: j.Name, Body: b, Reset: reset, Bounds: j.Bounds, Prune: j.Prune, EnvBudget: j.EnvBudget, Horizon: j.Horizon, NoPolling: j.NoPolling, EveryDeviationCosts: j.Deviation, Shard: j.Shard, NShards: j.NShards, SplitDepth: 7}
 		if j.Deadline > 0 {
 			x.Deadline = time.Unix(0, j.Deadline)
 		}
